@@ -127,6 +127,8 @@ var Actor ActorDef[interface{}]
 type AskDef[T any, R any] struct {
 	id time.Time
 	ch chan R
+	// abandoned is closed when the asker gave up (timeout), so that a late Reply is discarded
+	abandoned chan struct{}
 
 	Message T
 }
@@ -149,8 +151,9 @@ func AskNewGenerics[T any, R any](message T) *AskDef[T, R] {
 // AskNewByOptionsGenerics New Ask by its options
 func AskNewByOptionsGenerics[T any, R any](message T, ioCh chan R) *AskDef[T, R] {
 	newOne := AskDef[T, R]{
-		id: time.Now(),
-		ch: ioCh,
+		id:        time.Now(),
+		ch:        ioCh,
+		abandoned: make(chan struct{}),
 
 		Message: message,
 	}
@@ -170,12 +173,16 @@ func (askSelf *AskDef[T, R]) AskOnce(target ActorHandle[interface{}]) R {
 // AskOnceWithTimeout Sender Ask with timeout
 func (askSelf *AskDef[T, R]) AskOnceWithTimeout(target ActorHandle[interface{}], timeout time.Duration) (R, error) {
 	ch := askSelf.AskChannel(target)
-	defer close(ch)
 	var result R
 	select {
 	case result = <-ch:
+		close(ch)
 	case <-time.After(timeout):
 		verifPoint("ask.timeout.fired", askSelf)
+		// Do not close ch under a replier: mark the request as abandoned instead
+		if askSelf.abandoned != nil {
+			close(askSelf.abandoned)
+		}
 		return result, ErrActorAskTimeout
 	}
 
@@ -192,7 +199,11 @@ func (askSelf *AskDef[T, R]) AskChannel(target ActorHandle[interface{}]) chan R 
 // Reply Receiver Reply
 func (askSelf *AskDef[T, R]) Reply(response R) {
 	verifPoint("ask.reply.entry", askSelf)
-	askSelf.ch <- response
+	select {
+	case askSelf.ch <- response:
+	case <-askSelf.abandoned:
+		// The asker timed out: discard the reply
+	}
 }
 
 // Ask Ask utils instance
